@@ -197,6 +197,7 @@ func init() {
 		wirePaddingPrecedence(wc, r, "C01")
 		wireOneByteEndian(w, wc, r, "C01")
 		wireSequenceFrame(w, r, "C01", map[string]bool{"Field": true})
+		wireFieldOrderEmission(wc, r, "C01", map[string]bool{"enc": true})
 		wireAssumptions(r)
 	})
 	register("C02", "Sensitivity of the decode emitters (as C01, for decoders) plus encode/decode symmetry per language: for each cell the decoder's dependence set must include every wire-determining input its own encoder depends on - a decoder that ignores an option its encoder honours cannot invert it. "+
@@ -214,6 +215,7 @@ func init() {
 		optionSemantics(w, r, "C02")
 		wireCppBeName(wc, r, "C02", []string{"dec"}, 1<<kBasic|1<<kLength|1<<kCheckSum)
 		wireOrder(wc, r, "C02", "dec")
+		wireFieldOrderEmission(wc, r, "C02", map[string]bool{"dec": true})
 		wireAssumptions(r)
 	})
 	register("C03", "Sibling cross-check of the five independently written generators against one absolute table: every cell of the encode and decode matrices must be satisfied by all five languages (the odd one out is named), the five GetPadding helpers must branch on the same facts and recognise every pad-character spelling the parser can produce, and the per-language scalar tables must agree (keys, sizes, distinct LE/BE columns). "+
@@ -236,6 +238,7 @@ func init() {
 		wc := buildWire(w, r)
 		wireLength(w, wc, r)
 		wireOneByteEndian(w, wc, r, "C04")
+		wireFieldOrderEmission(wc, r, "C04", map[string]bool{"enc": true})
 		wireAssumptions(r)
 	})
 	register("C05", "Match dispatch: (expansion) every matchPair child and every key of a key list yields one pair, in source order, with the pair's packet; (table) each language's dispatch emitter ranges over the pair list and emits text depending on both the key and the packet of the loop element; "+
@@ -264,6 +267,7 @@ func init() {
 		wireRawType(w, r, "C06", "CheckSumFieldAttribute.Type")
 		wireOrder(wc, r, "C06", "enc")
 		wireOneByteEndian(w, wc, r, "C06")
+		wireFieldOrderEmission(wc, r, "C06", map[string]bool{"enc": true, "dec": true})
 		wireAssumptions(r)
 	})
 	register("C15", "Lua dissector, decided part: the dissector emitters depend on the list/string prefix types, the scalar type and the byte order for every cell; every emission that takes a size from a source (fixed length, scalar table Size, prefix table Size) takes the range and the advance from the same source; the scalar table agrees with the other languages. "+
